@@ -100,6 +100,10 @@ def run(ctx):
                "createDerivedSchema", None,
                "the private schema gets its own component registry and type "
                "table (copies): an import extends this load only")
+    crosscheck(ctx, "C12.R5", BP + ".start_import", "ref_schema.py",
+               "start_import", BP,
+               "a component is registered before it is parsed (an import "
+               "met again while it is being parsed is skipped)")
     crosscheck(ctx, "C12.R5", INF + ".SchemaType.hasComponent", "ref_info.py",
                "hasComponent", INF + ".SchemaType", "membership")
 
